@@ -14,3 +14,13 @@ for _f in sorted(glob.glob(os.path.join(_here, "propdefs", "*.py"))):
     PROPS.update(getattr(_m, "PROPS", {}))
     TEXT.update(getattr(_m, "TEXT", {}))
     NOT_YET.update(getattr(_m, "NOT_YET", {}))
+
+# Search triggers: regenerated text facts of the functions a suite's model mirrors (Bridge/<Suite>Facts.lean, see factx/allfuncs.go).
+# They are not obligations; when one stops checking the runner widens the correspondence search.
+_TRIGGER_NS = {"epochs": ["Epochs"], "csr": ["Csr"], "onboarding": ["Onboarding", "Coinswap"], "govshuttle": ["Govshuttle"],
+               "erc20": ["Erc20"], "params": ["Params"], "ante": ["Ante"], "genesis": ["Genesis"], "replica": [],
+               "signers": ["Signers"]}
+for _pid, _cfg in PROPS.items():
+    for _ns in _TRIGGER_NS.get(_cfg.get("suite"), []):
+        if os.path.exists(os.path.join(_here, "..", "lean", "CantoVerif", "Bridge", _ns + "Facts.lean")):
+            _cfg.setdefault("trigger_modules", []).append("CantoVerif.Bridge." + _ns + "Facts")
